@@ -131,7 +131,7 @@ type fn struct {
 type gen struct {
 	ctx        *common.Ctx
 	shared     []string // names used both as parameters of some functions and as package variables
-	bareGlobal bool     // some body has a bare symbol that is not a parameter (known finding C08-bare-symbol-body)
+	bareGlobal bool     // some body has a bare symbol that is not a parameter (repaired finding C08-bare-symbol-body)
 	fns        []*fn
 	calls      int // user calls generated in the current body / main (bounded)
 }
@@ -907,9 +907,9 @@ func Run(ctx *common.Ctx) {
 		// involves an undefined function (no variant of these templates redefines anything)
 		var ref string
 		if base.bareGlobal {
-			// what a bare non-parameter body symbol means depends on whether the variable exists when the defun is
-			// evaluated (known finding): such programs are judged by the model only
-			groupMains = nil
+			// programs with a bare non-parameter body symbol take part in the direct comparison since repo fix
+			// C08-4 (the symbol is looked up at call time, whatever existed when the defun was evaluated)
+			ctx.Hist("direct-comparison:with-bare-free-symbol")
 		}
 		for vi, ms := range groupMains {
 			for _, m := range ms {
